@@ -5,13 +5,13 @@ PACKAGES = {
     # hook_deps: other package keys whose hook_*.go files must be overlaid as well
     "config": {"dir": "internal/config", "name": "config", "libs": ["ipset.go"]},
     "controllers": {"dir": "internal/k8s/controllers", "name": "controllers", "libs": []},
-    "native": {"dir": "internal/bgp/native", "name": "native", "libs": []},
+    "native": {"dir": "internal/bgp/native", "name": "native", "libs": ["rfc4271.go"]},
     "allocator": {"dir": "internal/allocator", "name": "allocator", "libs": ["ipset.go"]},
     "controller": {"dir": "controller", "name": "main", "libs": ["ipset.go"], "hook_deps": ["allocator"]},
     "speaker": {"dir": "speaker", "name": "main", "libs": ["ipset.go"], "hook_deps": ["layer2"]},
     "layer2": {"dir": "internal/layer2", "name": "layer2", "libs": []},
-    "frr": {"dir": "internal/bgp/frr", "name": "frr", "libs": []},
-    "frrk8s": {"dir": "internal/bgp/frrk8s", "name": "frrk8s", "libs": [], "hook_deps": ["frr"]},
+    "frr": {"dir": "internal/bgp/frr", "name": "frr", "libs": ["frrinterp.go"]},
+    "frrk8s": {"dir": "internal/bgp/frrk8s", "name": "frrk8s", "libs": ["frrinterp.go"], "hook_deps": ["frr"]},
 }
 
 
@@ -50,10 +50,10 @@ PROPS = {
                                              run("controller", "TestVerif_C11", shards=(4, 16), files=["box", "shared"])]},
     "C12": {"level": "exploration", "runs": [run("speaker", "TestVerif_C12", shards=(4, 16), files=["c12", "direct", "shared"])]},
     "C13": {"level": "exploration", "runs": [run("layer2", "TestVerif_C13", race=True, shards=(4, 16))]},
-    "C14": {"level": "translation_validation", "runs": [run("frr", "TestVerif_C14", shards=(4, 16), files=["c14", "frrinterp", "shared"])]},
+    "C14": {"level": "translation_validation", "runs": [run("frr", "TestVerif_C14", shards=(4, 16), files=["c14", "shared"])]},
     "C15": {"level": "translation_validation", "runs": [run("frrk8s", "TestVerif_C15", shards=(4, 16))]},
-    "C16": {"level": "exploration", "runs": [run("native", "TestVerif_C16", shards=(4, 16), files=["c16", "rfc4271", "shared"])]},
-    "C17": {"level": "fault_enumeration", "runs": [run("native", "TestVerif_C17", race=True, shards=(4, 16), files=["c17", "rfc4271", "shared"])]},
+    "C16": {"level": "exploration", "runs": [run("native", "TestVerif_C16", shards=(4, 16), files=["c16", "shared"])]},
+    "C17": {"level": "fault_enumeration", "runs": [run("native", "TestVerif_C17", race=True, shards=(4, 16), files=["c17", "shared"])]},
     "C18": {"level": "exploration", "runs": [run("controllers", "TestVerif_C18", shards=(4, 16))]},
     "C19": {"level": "fault_enumeration", "runs": [run("frr", "TestVerif_C19", race=True, shards=(4, 16)),
                                                    run("controllers", "TestVerif_C19", race=True, shards=(2, 8))]},
